@@ -882,8 +882,38 @@ func genC18(c *Ctx) {
 		addends = append(addends, int(r.U64()%100000)-50000)
 	}
 	limit := new(big.Int).Lsh(big.NewInt(1), 232)
-	for _, a := range set {
+	// carry / borrow chains of every length: version 0 and version 255 namespaces whose bytes from position k
+	// to the end are all ff (resp. all 00), k = 1..28, the bytes before k random, zero, or one below / above -
+	// a carry has to travel through the sub-id, the 18 prefix bytes and into the version byte exactly
+	nPlain := len(set)
+	for k := 1; k <= 28; k++ {
+		for _, ver := range []byte{0, 255} {
+			for variant := 0; variant < 3; variant++ {
+				hi := make([]byte, 29)
+				lo := make([]byte, 29)
+				hi[0], lo[0] = ver, ver
+				switch variant {
+				case 1:
+					copy(hi[1:k], r.Bytes(k-1))
+					copy(lo[1:k], hi[1:k])
+				case 2:
+					if k > 1 {
+						hi[k-1], lo[k-1] = 0xfe, 0x01
+					}
+				}
+				for i := k; i < 29; i++ {
+					hi[i] = 0xff
+				}
+				set = append(set, hi, lo)
+			}
+		}
+	}
+	chainAddends := []int{1, -1, 2, 1 << 62, -(1 << 62), maxInt, minInt, 257, -257}
+	for ai, a := range set {
 		for _, v := range addends {
+			if ai >= nPlain {
+				break
+			}
 			if r.Intn(3) != 0 {
 				continue
 			}
@@ -903,6 +933,20 @@ func genC18(c *Ctx) {
 			}
 			if v != 0 {
 				c.mark("add " + hx(a) + " " + strconv.Itoa(v))
+			}
+		}
+		if ai >= nPlain {
+			for _, v := range chainAddends {
+				c.add("nsadd", hx(a), strconv.Itoa(v))
+				res, err := nsOf(a).AddInt(v)
+				want := new(big.Int).Add(new(big.Int).SetBytes(a), big.NewInt(int64(v)))
+				wit := map[string]any{"ns": hx(a), "v": v}
+				if want.Sign() < 0 || want.Cmp(limit) >= 0 {
+					c.check(err != nil, "AddInt", "no error on overflow/underflow", wit)
+				} else {
+					c.check(err == nil && bytes.Equal(res.Bytes(), want.FillBytes(make([]byte, 29))), "AddInt", "not exact big-endian addition (carry chain)", wit)
+				}
+				c.count("addint_carry_chain")
 			}
 		}
 	}
